@@ -352,7 +352,7 @@ Theorem simple_stmt_ok f s code pc0 r t vs ps st :
   | _ => False
   end.
 Proof.
-  destruct s as [p n e|p args| | | | |]; intros Hs Ht Hc; try discriminate; cbn [simple_code typed_simple] in *.
+  destruct s as [p n e|p args| | | | | | |]; intros Hs Ht Hc; try discriminate; cbn [simple_code typed_simple] in *.
   - (* assignment *)
     rewrite exec_assign. unfold boundary.
     pose proof (code_at_app_l _ _ _ _ Hc) as Hl. pose proof (code_at_app_r _ _ _ _ Hc) as H1.
@@ -437,7 +437,7 @@ Qed.
 
 Lemma simple_code_no_jump s : forallb no_jump (simple_code s) = true.
 Proof.
-  destruct s as [p n e|p args| | | | |]; cbn [simple_code]; try reflexivity.
+  destruct s as [p n e|p args| | | | | | |]; cbn [simple_code]; try reflexivity.
   - unfold gen_expr_casting. rewrite !forallb_app, gen_expr_no_jump.
     destruct (etype e) as [qs|]; [destruct (qual_eqb qs (snd n))|]; reflexivity.
   - rewrite !forallb_app. cbn [forallb no_jump fst andb].
@@ -470,7 +470,13 @@ Theorem straightline_program_ok f p :
 Proof.
   intros Hs Ht c.
   assert (Ec : c = flat_map simple_code p ++ [(IHalt, max_pos)]).
-  { unfold c, gen_program, emit, mark. cbn [code]. rewrite gen_simple_program by assumption.
+  { assert (F1 : filter is_data p = []).
+    { clear -Hs. induction p as [|s p IH]; [reflexivity|]. cbn [forallb] in Hs. apply andb_true_iff in Hs. destruct Hs as [H1 H2].
+      cbn [filter]. destruct s; try discriminate H1; cbn [is_data]; apply IH; exact H2. }
+    assert (F2 : filter (fun s => negb (is_data s)) p = p).
+    { clear -Hs. induction p as [|s p IH]; [reflexivity|]. cbn [forallb] in Hs. apply andb_true_iff in Hs. destruct Hs as [H1 H2].
+      cbn [filter]. destruct s; try discriminate H1; cbn [is_data negb]; f_equal; apply IH; exact H2. }
+    unfold c, gen_program. rewrite F1, F2. unfold emit, mark. cbn [code fold_left]. rewrite gen_simple_program by assumption.
     unfold gen_dims. cbn [fold_left code app]. apply resolve_no_jump.
     rewrite forallb_app. cbn [forallb no_jump fst andb]. rewrite andb_true_r.
     clear. induction p as [|s p IH]; cbn [flat_map]; [reflexivity|]. rewrite forallb_app, simple_code_no_jump, IH. reflexivity. }
